@@ -58,6 +58,11 @@ def decision_shape(t, e):
         'quoted' if chain else 'bare'
 
 
+def _option_read(fns, opt):
+    return any(isinstance(n, ast.Attribute) and n.attr == opt
+               for g in fns for n in ast.walk(g.node))
+
+
 def class_functions(prog, f):
     """__call__ plus the helpers of the remote-check module it reaches."""
     fns = [f]
@@ -198,6 +203,15 @@ def check_class(ctx, name, cq):
             form = [cnd for cnd in p.conds[:e.nconds] if cnd.kind == 'test'
                     and 'remote_content_type' in U(cnd.expr)]
             if not form:
+                if _option_read(fns, 'remote_content_type'):
+                    # the option is consulted, but not in a test on the way
+                    # to the request (a table lookup, a computed encoder)
+                    raise AnalysisError(
+                        'the request of %s is encoded after consulting '
+                        'remote_content_type, but not by a test on the path '
+                        'to requests.post: which encoding goes with which '
+                        'value is not one of the shapes this analysis reads'
+                        % f.qual)
                 ctx.ob('C16.PAYLOAD', False, where, f.qual,
                        'encoding choice', 'the encoding of the request is '
                        'not chosen by option remote_content_type')
@@ -276,6 +290,9 @@ def check_payload_builder(ctx, g):
         form = [c for c in p.conds if c.kind == 'test' and
                 'remote_content_type' in U(c.expr)]
         if not form:
+            if not _option_read([g], 'remote_content_type'):
+                # a builder of one fixed encoding, chosen by its caller
+                continue
             ctx.ob('C16.PAYLOAD', False, W, g.qual, 'encoding choice',
                    'the encoding is not chosen by option '
                    'remote_content_type')
